@@ -775,8 +775,326 @@ Proof.
       destruct (N.ltb_spec 0 0); [lia | discriminate].
 Qed.
 
+(* ------------------------------------------------------------------------------------------ *)
+(* 6. barriers and the levels below the compaction                                            *)
+
+Lemma hist_of_app : forall A D,
+  hist_of (A ++ D) = if existsb is_barrier A then hist_of A else hist_of A ++ hist_of D.
+Proof.
+  induction A as [|x r IH]; intros D.
+  - reflexivity.
+  - cbn [app hist_of existsb]. unfold is_barrier at 1.
+    destruct (is_hard (vkind x)); [reflexivity|].
+    destruct (is_rep (vkind x)); [reflexivity|].
+    cbn [orb]. rewrite IH. destruct (existsb is_barrier r); reflexivity.
+Qed.
+
+Lemma existsb_filter : forall (A : Type) (q p : A -> bool) l,
+  existsb (fun v => q v && p v) l = existsb p (filter q l).
+Proof.
+  induction l as [|x r IH]; [reflexivity|].
+  cbn [existsb filter]. destruct (q x); cbn [andb existsb orb]; rewrite IH; reflexivity.
+Qed.
+
+Lemma find_filter : forall (A : Type) (q p : A -> bool) l,
+  find (fun v => q v && p v) l = find p (filter q l).
+Proof.
+  induction l as [|x r IH]; [reflexivity|].
+  cbn [find filter]. destruct (q x); cbn [andb find]; rewrite IH; reflexivity.
+Qed.
+
+Lemma erases_deeper_history : erases_deeper_history_stmt.
+Proof.
+  unfold erases_deeper_history_stmt, history_deeper, history_at, erases_deeper. intros vs deep s.
+  rewrite filter_app, hist_of_app, existsb_filter. reflexivity.
+Qed.
+
+(* the first barrier of a flagged list *)
+Definition first_bar (L : list (ver * bool)) : option (ver * bool) :=
+  find (fun d => isbar (fst d)) L.
+
+Lemma first_bar_cons : forall x b r,
+  first_bar ((x, b) :: r) = if isbar x then Some (x, b) else first_bar r.
+Proof. reflexivity. Qed.
+
+(* when the first barrier is kept, nothing erased comes back — whatever lies below *)
+Lemma hist_kept_app_incl : forall L D,
+  (forall d, first_bar L = Some d -> snd d = true) ->
+  forall v, In v (hist_of (kept L ++ D)) -> In v (hist_of (map fst L ++ D)).
+Proof.
+  induction L as [|[x b] r IH]; intros D Hbar v Hv.
+  - exact Hv.
+  - rewrite first_bar_cons in Hbar. unfold isbar in Hbar.
+    cbn [map fst app hist_of].
+    destruct (is_hard (vkind x)) eqn:Hh.
+    + cbn [orb] in Hbar. specialize (Hbar _ eq_refl). cbn [snd] in Hbar. subst b.
+      rewrite kept_cons_true in Hv. cbn [app hist_of] in Hv. rewrite Hh in Hv. exact Hv.
+    + destruct (is_rep (vkind x)) eqn:Hr; cbn [orb] in Hbar.
+      * specialize (Hbar _ eq_refl). cbn [snd] in Hbar. subst b.
+        rewrite kept_cons_true in Hv. cbn [app hist_of] in Hv. rewrite Hh, Hr in Hv. exact Hv.
+      * destruct b.
+        -- rewrite kept_cons_true in Hv. cbn [app hist_of] in Hv. rewrite Hh, Hr in Hv.
+           destruct Hv as [Hv|Hv]; [left; exact Hv | right; apply (IH D Hbar); exact Hv].
+        -- rewrite kept_cons_false in Hv. right. apply (IH D Hbar). exact Hv.
+Qed.
+
+(* if in addition the whole history above it is kept, the history over both is unchanged *)
+Lemma hist_kept_app_eq : forall L D,
+  (forall d, first_bar L = Some d -> snd d = true) ->
+  (forall d, In d (hist_ofF L) -> snd d = true) ->
+  hist_of (kept L ++ D) = hist_of (map fst L ++ D).
+Proof.
+  induction L as [|[x b] r IH]; intros D Hbar Hall.
+  - reflexivity.
+  - rewrite first_bar_cons in Hbar. unfold isbar in Hbar.
+    cbn [hist_ofF fst] in Hall. cbn [map fst app hist_of].
+    destruct (is_hard (vkind x)) eqn:Hh.
+    + cbn [orb] in Hbar. specialize (Hbar _ eq_refl). cbn [snd] in Hbar. subst b.
+      rewrite kept_cons_true. cbn [app hist_of]. rewrite Hh. reflexivity.
+    + destruct (is_rep (vkind x)) eqn:Hr; cbn [orb] in Hbar.
+      * specialize (Hbar _ eq_refl). cbn [snd] in Hbar. subst b.
+        rewrite kept_cons_true. cbn [app hist_of]. rewrite Hh, Hr. reflexivity.
+      * assert (Hb : b = true) by (apply (Hall (x, b)); left; reflexivity). subst b.
+        rewrite kept_cons_true. cbn [app hist_of]. rewrite Hh, Hr. f_equal.
+        apply IH; [exact Hbar|]. intros d Hd. apply Hall. right. exact Hd.
+Qed.
+
+(* ... and the reader still has a barrier iff it had one *)
+Lemma existsb_bar_kept : forall L,
+  (forall d, first_bar L = Some d -> snd d = true) ->
+  existsb isbar (kept L) = existsb isbar (map fst L).
+Proof.
+  induction L as [|[x b] r IH]; intros Hbar.
+  - reflexivity.
+  - rewrite first_bar_cons in Hbar. cbn [map fst existsb].
+    destruct (isbar x) eqn:Hx.
+    + specialize (Hbar _ eq_refl). cbn [snd] in Hbar. subst b.
+      rewrite kept_cons_true. cbn [existsb]. rewrite Hx. reflexivity.
+    + destruct b.
+      * rewrite kept_cons_true. cbn [existsb]. rewrite Hx. cbn [orb]. apply IH. exact Hbar.
+      * rewrite kept_cons_false. cbn [orb]. apply IH. exact Hbar.
+Qed.
+
+(* a first barrier that is a replace belongs to the history *)
+Lemma first_bar_rep_hist : forall L d,
+  first_bar L = Some d -> is_hard (vkind (fst d)) = false -> In d (hist_ofF L).
+Proof.
+  induction L as [|[x b] r IH]; intros d H Hh.
+  - discriminate.
+  - rewrite first_bar_cons in H. cbn [hist_ofF fst]. unfold isbar in H.
+    destruct (is_hard (vkind x)) eqn:Hx.
+    + cbn [orb] in H. injection H as <-. cbn [fst] in Hh. rewrite Hx in Hh. discriminate.
+    + destruct (is_rep (vkind x)); cbn [orb] in H.
+      * injection H as <-. left. reflexivity.
+      * right. apply IH; assumption.
+Qed.
+
+Lemma find_map_fst : forall (p : ver -> bool) (L : list (ver * bool)) d,
+  find (fun d => p (fst d)) L = Some d -> find p (map fst L) = Some (fst d).
+Proof.
+  induction L as [|x r IH]; intros d H.
+  - discriminate.
+  - cbn [find map] in *. destruct (p (fst x)).
+    + injection H as <-. reflexivity.
+    + apply IH. exact H.
+Qed.
+
+Lemma ldb_cond_above : forall snaps vs, ldb_cond false snaps vs = false.
+Proof. intros snaps vs. destruct vs; reflexivity. Qed.
+
+Lemma outside_0 : forall now v, outside 0 now v = false.
+Proof. reflexivity. Qed.
+
+(* above the bottom level, with versioning, a hard delete is dropped by the decision only when it
+   is outside the retention window (the repaired branch) *)
+Lemma ck_flag_hard_above : forall retention now snaps i newer barrier v,
+  is_hard (vkind v) = true ->
+  ck_flag false true retention now snaps false i newer barrier v = false ->
+  outside retention now v = true.
+Proof.
+  intros retention now snaps i newer barrier v Hh H.
+  unfold ck_flag, ck_superseded, outside in *.
+  destruct ((0 <? retention) && (retention <? now - vts v)) eqn:Ho; [reflexivity|].
+  exfalso.
+  assert (Hsup : match newer with
+                 | Some nv => (negb true || false) && negb (Nat.eqb i 0) &&
+                              same_boundary nv (visibility snaps (vseq v))
+                 | None => false
+                 end = false) by (destruct newer; reflexivity).
+  rewrite Hsup, Hh in H. cbn [negb andb orb] in H.
+  destruct (visibility snaps (vseq v)); destruct (Nat.eqb i 0); destruct (is_rep (vkind v));
+    cbn [negb andb orb] in H; discriminate.
+Qed.
+
+Lemma ck_decide_false_hard : forall retention now snaps v,
+  is_hard (vkind v) = true ->
+  forall l i newer barrier,
+  In (v, false) (ck_decide false true retention now snaps false i newer barrier l) ->
+  outside retention now v = true.
+Proof.
+  intros retention now snaps v Hh.
+  induction l as [|x r IH]; intros i newer barrier H.
+  - destruct H.
+  - rewrite ck_decide_cons in H. destruct H as [H|H].
+    + injection H as -> Hf. exact (ck_flag_hard_above _ _ _ _ _ _ _ Hh Hf).
+    + exact (IH _ _ _ H).
+Qed.
+
+(* the newest barrier a relevant reader sees is kept, or it is outside the retention window *)
+Lemma flagged_first_bar : forall retention now snaps vs s v b,
+  desc vs -> asc snaps -> (In s snaps \/ top vs <= s) ->
+  first_bar (filter (fun d : ver * bool => vseq (fst d) <=? s)
+                    (flagged false true retention now snaps vs)) = Some (v, b) ->
+  b = true \/ outside retention now v = true.
+Proof.
+  intros retention now snaps vs s v b Hdesc Hasc Hrel H.
+  destruct b; [left; reflexivity | right].
+  destruct (is_hard (vkind v)) eqn:Hh.
+  - unfold first_bar in H. apply find_some in H. destruct H as [Hin _].
+    apply filter_In in Hin. destruct Hin as [Hin _].
+    unfold flagged in Hin. rewrite ldb_cond_above in Hin.
+    apply fixup_in_false in Hin.
+    exact (ck_decide_false_hard _ _ _ _ Hh _ _ _ _ Hin).
+  - apply (flagged_hist_false false retention now snaps vs s v Hdesc Hasc Hrel
+             (ldb_cond_above snaps vs)).
+    apply first_bar_rep_hist; [exact H | exact Hh].
+Qed.
+
+(* history over the compaction and an arbitrary list below it, in terms of the flagged list *)
+Lemma history_app_flagged : forall bottom versioning retention now snaps vs deep s,
+  let L := filter (fun d : ver * bool => vseq (fst d) <=? s)
+                  (flagged bottom versioning retention now snaps vs) in
+  let D := filter (fun v => vseq v <=? s) deep in
+  history_at (compact_key bottom versioning retention now snaps vs ++ deep) s
+    = hist_of (kept L ++ D) /\
+  history_at (vs ++ deep) s = hist_of (map fst L ++ D).
+Proof.
+  intros. subst L D. unfold history_at. rewrite !filter_app. split.
+  - rewrite compact_key_eq, (filter_kept (fun v => vseq v <=? s)). reflexivity.
+  - rewrite <- (filter_map_fst (fun v => vseq v <=? s)), flagged_map_fst. reflexivity.
+Qed.
+
+Lemma erases_deeper_flagged : forall bottom versioning retention now snaps vs s,
+  let L := filter (fun d : ver * bool => vseq (fst d) <=? s)
+                  (flagged bottom versioning retention now snaps vs) in
+  erases_deeper (compact_key bottom versioning retention now snaps vs) s = existsb isbar (kept L) /\
+  erases_deeper vs s = existsb isbar (map fst L).
+Proof.
+  intros. subst L. unfold erases_deeper. rewrite !existsb_filter. split.
+  - rewrite compact_key_eq, (filter_kept (fun v => vseq v <=? s)). reflexivity.
+  - rewrite <- (filter_map_fst (fun v => vseq v <=? s)), flagged_map_fst. reflexivity.
+Qed.
+
+(* unlimited retention: the newest barrier of a relevant reader is always kept *)
+Lemma flagged_first_bar_0 : forall now snaps vs s,
+  desc vs -> asc snaps -> (In s snaps \/ top vs <= s) ->
+  forall d, first_bar (filter (fun d : ver * bool => vseq (fst d) <=? s)
+                              (flagged false true 0 now snaps vs)) = Some d -> snd d = true.
+Proof.
+  intros now snaps vs s Hdesc Hasc Hrel [v b] H. cbn [snd].
+  destruct (flagged_first_bar 0 now snaps vs s v b Hdesc Hasc Hrel H) as [Hb|Ho]; [exact Hb|].
+  rewrite outside_0 in Ho. discriminate.
+Qed.
+
+Lemma compact_key_barrier_kept : compact_key_barrier_kept_stmt.
+Proof.
+  unfold compact_key_barrier_kept_stmt.
+  intros now snaps vs s Hdesc Hasc _ Hrel.
+  destruct (erases_deeper_flagged false true 0 now snaps vs s) as [Hout Hin].
+  cbv zeta in Hout, Hin. rewrite Hout, Hin.
+  apply existsb_bar_kept. apply flagged_first_bar_0; assumption.
+Qed.
+
+Lemma compact_key_history_deeper_any : compact_key_history_deeper_any_stmt.
+Proof.
+  unfold compact_key_history_deeper_any_stmt.
+  intros now snaps vs deep s Hdesc Hasc Hrel.
+  destruct (history_app_flagged false true 0 now snaps vs deep s) as [Hout Hin].
+  cbv zeta in Hout, Hin. rewrite Hout, Hin.
+  apply hist_kept_app_eq.
+  - apply flagged_first_bar_0; assumption.
+  - intros [v b] Hd. destruct b; [reflexivity|]. exfalso.
+    pose proof (flagged_hist_false false 0 now snaps vs s v Hdesc Hasc Hrel
+                  (ldb_cond_above snaps vs) Hd) as Ho.
+    rewrite outside_0 in Ho. discriminate.
+Qed.
+
+Lemma desc_app_l : forall vs deep, desc (vs ++ deep) -> desc vs.
+Proof.
+  unfold desc. induction vs as [|x r IH]; intros deep H.
+  - constructor.
+  - cbn [app] in H. inversion H as [|? ? Hr Hall]; subst. constructor.
+    + exact (IH _ Hr).
+    + rewrite Forall_forall in *. intros y Hy. apply Hall. apply in_or_app. left. exact Hy.
+Qed.
+
+Lemma compact_key_history_deeper : compact_key_history_deeper_stmt.
+Proof.
+  unfold compact_key_history_deeper_stmt, history_deeper, lies_below.
+  intros now snaps vs deep s [Hdesc _] Hasc Hrel.
+  apply compact_key_history_deeper_any; [exact (desc_app_l _ _ Hdesc) | exact Hasc | exact Hrel].
+Qed.
+
+Lemma compact_key_history_deeper_retention : compact_key_history_deeper_retention_stmt.
+Proof.
+  unfold compact_key_history_deeper_retention_stmt, history_deeper, lies_below.
+  intros retention now snaps vs deep s [Hdesc0 _] Hasc Hrel Hwin.
+  pose proof (desc_app_l _ _ Hdesc0) as Hdesc.
+  destruct (history_app_flagged false true retention now snaps vs deep s) as [Hout Hin].
+  cbv zeta in Hout, Hin. rewrite Hout, Hin.
+  apply hist_kept_app_incl.
+  intros [v b] H. cbn [snd].
+  destruct (flagged_first_bar retention now snaps vs s v b Hdesc Hasc Hrel H) as [Hb|Ho];
+    [exact Hb|].
+  exfalso. apply (Hwin v).
+  - unfold newest_barrier. rewrite find_filter.
+    rewrite <- (flagged_map_fst false true retention now snaps vs) at 1.
+    rewrite (filter_map_fst (fun v => vseq v <=? s)).
+    exact (find_map_fst isbar _ _ H).
+  - unfold outside in Ho. apply andb_prop in Ho. destruct Ho as [Ho1 Ho2].
+    destruct (N.ltb_spec 0 retention); [|discriminate].
+    destruct (N.ltb_spec retention (now - vts v)); [|discriminate].
+    split; assumption.
+Qed.
+
+(* witnesses *)
+Definition w_set (q : N) : ver := {| vseq := q; vkind := CSet; vts := 0 |}.
+Definition w_del (q : N) : ver := {| vseq := q; vkind := CDel; vts := 0 |}.
+
+Lemma w_lies_below : lies_below [w_set 3; w_del 2] [w_set 1].
+Proof.
+  split.
+  - unfold desc. cbn [app]. repeat (constructor; cbn [vseq w_set w_del]); lia.
+  - cbn [app]. intros v [<-|[<-|[<-|[]]]]; cbn [vseq w_set w_del]; lia.
+Qed.
+
+(* finite retention, barrier outside the window: Set@1 of the deeper level comes back *)
+Lemma compact_key_retention_barrier_lost : compact_key_retention_barrier_lost_stmt.
+Proof.
+  exists 10, 100, [], [w_set 3; w_del 2], [w_set 1], 3, (w_set 1).
+  split; [exact w_lies_below|]. split; [constructor|]. split; [right; cbn; lia|].
+  split.
+  - vm_compute. right. left. reflexivity.
+  - vm_compute. intros [H|[]]. discriminate H.
+Qed.
+
+(* the decision before the repair loses the barrier Del@2: Set@1 of the deeper level comes back *)
+Lemma compact_key_old_history_deeper_fails : compact_key_old_history_deeper_fails_stmt.
+Proof.
+  exists 0, [], [w_set 3; w_del 2], [w_set 1], 3.
+  split; [exact w_lies_below|]. split; [constructor|]. split; [right; cbn; lia|].
+  split; vm_compute; discriminate.
+Qed.
+
 Print Assumptions compact_key_sublist.
 Print Assumptions compact_key_plain.
 Print Assumptions compact_key_view.
 Print Assumptions compact_key_history.
 Print Assumptions compact_key_history_retention.
+Print Assumptions erases_deeper_history.
+Print Assumptions compact_key_barrier_kept.
+Print Assumptions compact_key_history_deeper_any.
+Print Assumptions compact_key_history_deeper.
+Print Assumptions compact_key_history_deeper_retention.
+Print Assumptions compact_key_retention_barrier_lost.
+Print Assumptions compact_key_old_history_deeper_fails.
